@@ -14,11 +14,13 @@ var currentCommit CommitMessage
 var currentFileChangeMap map[string]FileChange
 var commits []CommitMessage
 var currentFileChanges []FileChange
+var currentFileChangeOrder []string
 
 func BuildMessageByInput(inputStr string) []CommitMessage {
 	currentFileChangeMap = make(map[string]FileChange)
 	commits = nil
 	currentFileChanges = nil
+	currentFileChangeOrder = nil
 
 	splitStr := strings.Split(inputStr, "\n")
 	for _, str := range splitStr {
